@@ -80,9 +80,11 @@ all), and every quick check was run on the unchanged tree with several `VERIF_SE
   with `VERIF_SEED`; `pgregory.net/rapid` is not used.
 * **Known-finding predicates** live in the trace specification that judges the event (`TraceStl`: `ReplaceCp`;
   `TraceSession`: `SwapAll`), not in a separate `Deviations.tla`.
-* **C16** is decided by TLC on the structured instant grid and the model-checked codec laws; the Apalache lemma
-  of section 3.3 was not built (TLC's bounded check of `Laws` plus 1.8*10^5 replayed instants per quick run was
-  judged the better use of the time).
+* **C16** is decided by TLC on the structured instant grid and the model-checked codec laws; in addition
+  `spec/TimeLaws.tla` states the mixed-radix rendering laws (every field in range, recomposition = the instant
+  truncated to the fraction's resolution, monotonicity) and the truncation laws used by C07 (idempotent, never later,
+  less than a quantum earlier) over *unbounded* integers, and Apalache discharges them for every instant on every
+  run of C16 (12 s; a falsified variant of the law is rejected).
 * **`-coverage 1`** is not run per check; vacuity is guarded by `distinct_nontrivial` per property, by
   `Infra("vacuous run")` when nothing was validated, by C07's per-pair scope accounting (a (source, destination,
   entry) combination without an in-scope history is an infrastructure error), and by `./check selftest`.
